@@ -233,6 +233,8 @@ def close(a, b):
         return True
     if math.isnan(a) or math.isnan(b):
         return False
+    if math.isinf(a) or math.isinf(b):
+        return False            # (equal infinities were accepted above; an infinity is close to nothing else)
     return abs(a - b) <= 1e-9 * max(1.0, abs(a), abs(b))
 
 
